@@ -86,7 +86,7 @@ func TestVerif_C05(t *testing.T) {
 	if err := os.MkdirAll(dir, 0o755); err != nil {
 		t.Fatalf("setup failed: %v", err)
 	}
-	rep := vh.NewReport("C05", "current", "current format (Version 2): every added signature must be reported present by Writer.Has and by the sealed file read through mmap, *os.File and bytes.Reader; a probe is reported present only if an added signature has its two-byte prefix and xxhash64; Writer.Has = Reader.Has on every probe; small runs are re-evaluated by the Coq model (writer, model reader on the Go-written bytes, model reader on the model-written file)")
+	rep := vh.NewReport("C05", "current", "current format (Version 2): every added signature must be reported present by Writer.Has and by the sealed file read through mmap, *os.File and bytes.Reader; a probe is reported present only if an added signature has its two-byte prefix and xxhash64; Writer.Has = Reader.Has on every probe; bucket populations 0,1,2,3,2^k-1,2^k,2^k+1 and crowded prefixes (16 000, 16 001, ~16 040, more than 32 000 signatures: the current writer starts every bucket with room for 16 000) whose neighbour prefixes (numerically and in byte order) are filled before, while and after the crowded one; small runs are re-evaluated by the Coq model (writer, model reader on the Go-written bytes, model reader on the model-written file)")
 	cases := vh.NewCases("c05_current_cases", []string{"YF.C05_Model", "YF.C05_Check"}, "case", "check")
 	nCoq := 2
 	if thorough {
